@@ -363,7 +363,8 @@ structure Att where
   deriving Repr, Inhabited
 
 structure StreamMon where
-  atts : List Att := []        -- innermost first
+  atts : List Att := []        -- most recently attached first
+  vis : Bool := true           -- every attachment made so far shows the prompt (`show_prompt=True`)
   deriving Repr, Inhabited
 
 def fwdFor (id : Nat) (fwd : List (Nat × List Char)) : List (List Char) :=
@@ -393,6 +394,20 @@ def detachOk (a : Att) : Bool :=
     | some n => asciiT a.fw == asciiB (a.r.take n)
     | none => true
 
+/-- the text fragments one stream receives for the deliveries `ds` when nothing is suppressed: every delivery
+    is decoded on its own (`buf.decode("utf-8", errors="replace")`); empty texts are not observed -/
+def visText (ds : List Bytes) : List (List Char) := (ds.map decodeReplace).filter fun t => !t.isEmpty
+
+/-- (6) as long as every attachment made so far shows the prompt (`vis`), every attached stream receives
+    exactly the data delivered while it is attached: one text fragment per delivery, in the order of the
+    deliveries, and nothing else — whatever else is attached, and in whatever order attachments are ended -/
+def visOk (vis : Bool) (atts : List Att) (o : OpObs) : Bool :=
+  !vis || atts.all fun a => fwdFor a.id o.fwd == visText (delivered o)
+
+/-- The monitor.  A detach names the attachment it ends: `streamExit` (a `with` block left in
+    last-in-first-out order) ends the most recent one, `streamExitAt k` ends the attachment of stream `k`
+    wherever it is; from then on (4) forbids anything to reach that stream, and the laws of the attachments
+    that stay open go on unchanged. -/
 def c08 (m : StreamMon) (cfg : Cfg) (op : Op) (o : OpObs) : Bool × StreamMon :=
   -- (4) nothing reaches a stream that is not attached
   let attached := o.fwd.all fun f => m.atts.any (·.id == f.1)
@@ -406,14 +421,20 @@ def c08 (m : StreamMon) (cfg : Cfg) (op : Op) (o : OpObs) : Bool × StreamMon :=
   let atts := m.atts.map fun a =>
     { a with r := a.r ++ data, fw := a.fw ++ (fwdFor a.id o.fwd).flatten,
              steady := a.steady && (data.isEmpty || (a.showPrompt == mode && a.prompt == prompt)) }
-  let ok := attached && same && atts.all attOk
+  let ok := attached && same && atts.all attOk && visOk m.vis atts o
   match op with
-  | .streamEnter id sp => (ok, { atts := { id := id, showPrompt := sp, prompt := cfg.prompt } :: atts })
+  | .streamEnter id sp =>
+    (ok, { atts := { id := id, showPrompt := sp, prompt := cfg.prompt } :: atts, vis := m.vis && sp })
   | .streamExit =>
     match atts with
-    | [] => (ok, { atts := [] })
-    | a :: rest => (ok && (a.prompt != cfg.prompt || detachOk a), { atts := rest })
-  | _ => (ok, { atts := atts })
+    | [] => (ok, { m with atts := [] })
+    | a :: rest => (ok && (a.prompt != cfg.prompt || detachOk a), { m with atts := rest })
+  | .streamExitAt k =>
+    (ok && (match atts.find? (·.id == k) with
+            | none => true
+            | some a => a.prompt != cfg.prompt || detachOk a),
+     { m with atts := atts.eraseP (·.id == k) })
+  | _ => (ok, { m with atts := atts })
 
 /-- C08 at the level of its consumers (`exec()` command events): the text logged into the command's
     event while its stream was attached is exactly the output the command returned — nothing of the
